@@ -446,3 +446,41 @@ def check_index_arithmetic_widened(ctx, fi,
                      f'`{unparse(pair[1])[:30]}`: the product can exceed '
                      'that type and wraps around; widen the array first')
     return n
+
+
+def check_index_cast_to_input_dtype(ctx, fi,
+                                    rule='R-CAP/index-cast-to-input-type'):
+    """`result.astype(indices.dtype)`: an index array produced by the
+    function (read back from a file, computed) is forced into the integer
+    type of an index array the function was *given*.  That type was sized
+    by the caller for the values of its own array (`choose_int_dtype`);
+    the result's values -- after a transposition the positions along the
+    other axis -- are unrelated to it, and a narrow type wraps them
+    around.  A cast of a selection of the parameter itself is fine."""
+    idx_params = [p for p in fi.params if _member_of(p) in ('indices',
+                                                            'indptr')]
+    if not idx_params:
+        return 0
+    n = 0
+    for c in ast.walk(fi.node):
+        if not (isinstance(c, ast.Call) and isinstance(
+                c.func, ast.Attribute) and c.func.attr == 'astype'
+                and c.args):
+            continue
+        a = c.args[0]
+        if not (isinstance(a, ast.Attribute) and a.attr == 'dtype'
+                and isinstance(a.value, ast.Name)
+                and a.value.id in idx_params):
+            continue
+        src = backward_slice(fi, c.func.value)
+        if a.value.id in src.params and not src.consts:
+            continue          # a selection / arithmetic of the parameter
+        n += 1
+        ctx.touch(fi)
+        ctx.fail(rule, f'{fi.qual}:cast#{n - 1}', fi.loc(c),
+                 f'`{unparse(c)[:70]}` forces an index array the function '
+                 f'produced into the integer type of its input '
+                 f'`{a.value.id}`: that type was sized for the input\'s '
+                 'values, the result\'s values (positions along the other '
+                 'axis after a transposition) wrap around in it')
+    return n
